@@ -76,7 +76,7 @@ func (a *Auth) saveFileHandler() error {
 	}
 	tmpfile.Close()
 	// replace the old password file.
-	return os.Rename(tmpfile.Name(), a.config.PasswordFile)
+	return os.Rename(tmpfile.Name(), a.passwordFile())
 }
 
 // Update updates the password for the account.
